@@ -58,6 +58,16 @@ func (a *acceptRun) menu(off uint32, heavy bool) {
 		send(b, false)
 		send(b, true)
 	}
+	// a valid report whose signature ends in a zero byte, sent one byte short over the socket: the
+	// missing byte must not be made up by the receive buffer
+	for v := uint64(1000); v < 9000; v++ {
+		b := a.ReportBytes(1, slot(7), v, "d1", 0)
+		if b[79] == 0 {
+			send(b[:79], true)
+			time.Sleep(5 * time.Millisecond)
+			break
+		}
+	}
 	if heavy {
 		for n := 0; n <= 200; n++ {
 			if n == 80 {
